@@ -57,7 +57,8 @@ def pTarget (t : String) : Option Target :=
 def pEntry (t : String) : Option Entry :=
   if t == "static" then some .static else if t == "str" then some .str
   else if t == "fmt" then some .fmt else if t == "draw" then some .draw
-  else if t == "anim" then some .anim else if t == "iter" then some .iter else none
+  else if t == "anim" then some .anim else if t == "iter" then some .iter
+  else if t == "iterc" then some .iterc else if t == "animc" then some .animc else none
 
 def pOp (tok : String) : Option Op :=
   match tok.splitOn "," with
